@@ -23,6 +23,7 @@ An interpreter for the bodies of widgets/list `List`, widgets/pager `Model` and 
   * `range` over `d.items[lo:]` (CHECKED slice expression → `Err.panic`), `d.Segments`,
     `vaxis.Characters(seg.Text)`, `d.lines`, `l.characters`: the elements are read when the loop
     starts;
+  * `return List{items: y}` (the constructor `New`) is a fresh receiver with zero index and offset;
   * `d.Layout()` is a call into the callee's interpreted body (fresh locals, shared fields and
     lines; a callee's assignments to character-valued fields are not propagated — `Layout` has none).
 Anything outside the subset is `Err.stuck`, never a silent default.
@@ -184,6 +185,11 @@ def atom (R : Ro) (m : M) (l : GoSyn.Line) : Res :=
   | .breakS, _, _ => .ok (m, .brk)
   | .continueS, _, _ => .ok (m, .cont)
   | .returnS, .none, _ => .ok (m, .ret [])
+  -- `return List{items: y}`: a fresh `List` (zero index and offset) holding the `y` items
+  | .returnS, .arg (.call (.lit "List{}")) (.pair (.var "items") (.var y)), _ =>
+    match look m ("#" ++ y) with
+    | some n => .ok ({ m with φ := [("d.index", 0), ("d.offset", 0), ("#d.items", n)] }, .ret [])
+    | Option.none => .error (.stuck "items")
   | .returnS, e, _ =>
     match evI m e with
     | some v => .ok (m, .ret [v])
@@ -311,6 +317,7 @@ def m0 : M := ⟨[], [], [], [], [], "", [], false, [], []⟩
 structure Bodies where
   listMin : Stmt
   listMax : Stmt
+  listNew : Stmt
   listIndex : Stmt
   listDraw : Stmt
   listDown : Stmt
@@ -350,6 +357,12 @@ def runList (body : Stmt) (s : SimpleList.St) (h k : Nat) : Option (Except Unit 
   | .error .panic => some (.error ())
   | .error _ => Option.none
   | .ok (m, _) => (listSt m).map fun s' => .ok (s', m.rows)
+
+/-- `New(items)` with `k` items: the `List` returned. -/
+def runListNew (body : Stmt) (k : Nat) : Option SimpleList.St :=
+  match exec ⟨0, 0, [], noCall⟩ body 0 { m0 with ρ := [("#v0", (k : Int))] } with
+  | .ok (m, .ret []) => listSt m
+  | _ => Option.none
 
 /-- `Index()`. -/
 def runListIndex (body : Stmt) (s : SimpleList.St) : Option Int :=
